@@ -1414,10 +1414,24 @@ class Engine:
                     yield Out('raise', c, v.exc)
                     continue
                 what, coll = _iterable(self, c, v)
+                if what == 'seq' and getattr(self.ext, 'yield_skip', False):
+                    # a relaying generator seen from the inside: the items go to the consumer, its own state is untouched;
+                    # the iterable then ends (or its creation / iteration raised: the recorded call's raise forks)
+                    c.notes.append(('yielded-from', v))
+                    yield Out('next', c)
+                    continue
                 if what == 'seq':
                     raise Unsupported('yield from a sequence')
                 c.notes.append(('generator',))
                 yield Out('return', c, GenSeq(what, coll))
+            return
+        if isinstance(s.value, ast.Yield) and getattr(self.ext, 'yield_skip', False):
+            for c, v in (self.ev(s.value.value, ctx) if s.value.value is not None else [(ctx, S(NONE))]):
+                if isinstance(v, Raised):
+                    yield Out('raise', c, v.exc)
+                else:
+                    c.notes.append(('yielded', v))
+                    yield Out('next', c)
             return
         for c, v in self.ev(s.value, ctx):
             yield Out('raise', c, v.exc) if isinstance(v, Raised) else Out('next', c)
